@@ -5,6 +5,12 @@ T = "RsslVerif.Thm.C10."
 NUMERIC = ("Int:", "IntU32:", "IntU64:", "IntS64:", "Float:", "Float16:", "Float32:", "Float64:")
 
 
+KEY_NO_INTEGER_DIGITS = ("lexer.rs token_intermediate: a floating literal without integer digits (.5) is not one token: "
+                         "literal_float is tried only on a leading digit, so it is read as Period followed by the digits")
+KEY_UPPER_HEX_PREFIX = ("lexer.rs literal_int: the hexadecimal prefix 0X (upper case X) is not recognised: "
+                        "0X1F is read as the integer 0 followed by the identifier X1F")
+
+
 def _text(req):
     f = req.split("\t")
     try:
@@ -36,6 +42,13 @@ def finding_key(req, obs, detail):
     if re.search(r"\b[19]5ae43fd\b", d) and re.search(r"\b15ae43fe\b", d) and "07038531" in d and \
             (d.startswith("FAIL:emit Float") or d.startswith("FAIL:fmt Float")):
         return "formatter.rs format_literal: single 0x15ae43fd printed with f32 Display digits (7.038531e-26) reads back as 0x15ae43fe"
+    # C10.num: the two spelling families of the C numeral grammar that rssl's dispatcher does not read as one literal
+    if req.startswith("C10.num"):
+        if re.match(r"FAIL:numeral \.\d\S* is the one literal Float\S* 0 \d+ but was read as Period 0 1;", d):
+            return KEY_NO_INTEGER_DIGITS
+        if re.match(r"FAIL:numeral 0X[0-9a-fA-F]+[uUlL]{0,2} (is the one literal Int\S* 0 \d+|does not fit the type its suffix names "
+                    r"\(IntegerLiteralTooLarge at 2 expected\)) but was read as Int:0 0 1;Id:58", d):
+            return KEY_UPPER_HEX_PREFIX
     if re.match(r"FAIL:panic (\S*/)?formatter/src/formatter\.rs:\d+: invalid msl$", d):
         return "panic formatter/src/formatter.rs fn write_infinity_f64: invalid msl"
     if "as_ptr_range" in d:
